@@ -26,7 +26,7 @@ func (C11) Rule() string {
 		"interleaved by the seeded scheduler at every storage call (uniform or sticky choice policy, randomised per run); families: " +
 		"kv (POST/DELETE/GET on 1-2 keys of a child version whose parent holds older values; whole history incl. later quiescent reads checked for linearizability with porcupine against a per-key register model, " +
 		"invoke/return = scheduler event numbers), dag (concurrent new-version/branch/commit/merge on one parent and new versions in different repos; afterwards the C07 graph invariants, at most one child per branch, " +
-		"every acknowledged child present), labels (bodies of several supervoxels; batches of 2-3 commuting label operations issued together - cleaves of ONE body with disjoint supervoxels, merges of distinct bodies into ONE target, a cleave and a merge on disjoint bodies; every acknowledged one must be fully applied: afterwards every read endpoint is compared with the C08 reference model). non-trivial = at least one decision among >=2 parked goroutines; distinct = distinct decision-sequence hash"
+		"every acknowledged child present), labels (bodies of several supervoxels; batches of 2-3 commuting label operations issued together - cleaves of ONE body with disjoint supervoxels, merges of distinct bodies into ONE target, a cleave and a merge on disjoint bodies; every acknowledged one must be fully applied: afterwards every read endpoint is compared with the C08 reference model), dag-locks (the dag batches plus node note/log posts, repo info reads and key-value writes on a version that stays open, run with Knobs.LockYield: every Mutex/RWMutex acquisition made from DVID's own sources parks the goroutine, so lock-order inversions and recursive read locks become reachable schedules; a batch that never completes is a C20 wedge, an acknowledged note must be one of the batch's notes, every acknowledged log line present exactly once). In every family each third run sets LockYield as well. non-trivial = at least one decision among >=2 parked goroutines; distinct = distinct decision-sequence hash"
 }
 func (C11) Assumptions() []string {
 	return append([]string{"porcupine timeouts (Unknown) are counted as inconclusive, never reported"}, commonAssumptions...)
@@ -36,9 +36,14 @@ func (C11) Budget(tier string) (int, time.Duration) {
 }
 
 func (C11) Generate(r *rand.Rand, tier string, idx int) *drv.Scenario {
-	fam := []string{"kv", "kv", "dag", "labels"}[r.IntN(4)]
+	fam := []string{"kv", "kv", "dag", "labels", "dag-locks"}[r.IntN(5)]
 	sc := &drv.Scenario{Family: fam, Knobs: baseKnobs(r)}
 	sc.Knobs.Bias = r.IntN(3)
+	locks := fam == "dag-locks"
+	if locks {
+		// repo-level requests with every mutex acquisition in DVID's own sources as a scheduling point
+		sc.Knobs.LockYield = true
+	}
 	if fam == "labels" {
 		// bodies of several supervoxels, then batches of commuting label operations on one body / one target
 		seed := func() int64 { return int64(r.Uint64N(1 << 40)) }
@@ -57,7 +62,7 @@ func (C11) Generate(r *rand.Rand, tier string, idx int) *drv.Scenario {
 		}
 		steps = append(steps, drv.Op{Op: "lcheckall"})
 		sc.Steps = steps
-		return sc
+		return lockSwarm(sc, idx)
 	}
 	var steps []drv.Op
 	valCtr := 0
@@ -91,9 +96,15 @@ func (C11) Generate(r *rand.Rand, tier string, idx int) *drv.Scenario {
 			steps = append(steps, drv.Op{Op: "par", Sub: sub})
 			steps = append(steps, drv.Op{Op: "readall", V: 1, I: "kv", S: keys})
 		}
-	case "dag":
+	case "dag", "dag-locks":
 		steps = append(steps, drv.Op{Op: "repo", R: 0, N: 0}, drv.Op{Op: "repo", R: 1, N: 1}, drv.Op{Op: "commit", V: 0})
 		next := 2
+		keep := 0 // (lock family) index of a version that stays open, for note and log posts
+		if locks {
+			steps = append(steps[:2], drv.Op{Op: "inst", R: 0, I: "kv", T: "keyvalue"}, drv.Op{Op: "commit", V: 0})
+			steps = append(steps, drv.Op{Op: "branch", V: 0, Br: "keep", N: 2})
+			keep, next = 2, 3
+		}
 		nb := 3 + r.IntN(4)
 		locked := []int{0}
 		open := []int{1}
@@ -103,7 +114,21 @@ func (C11) Generate(r *rand.Rand, tier string, idx int) *drv.Scenario {
 			p := pick(r, locked)
 			for c := 0; c < nc; c++ {
 				cl := fmt.Sprintf("c%d", c+1)
-				switch x := r.IntN(10); {
+				x := r.IntN(10)
+				if locks && r.IntN(2) == 0 {
+					switch y := r.IntN(6); y {
+					case 0, 1:
+						sub = append(sub, drv.Op{Op: "note", C: cl, V: keep, Val: nv()})
+					case 2, 3:
+						sub = append(sub, drv.Op{Op: "log", C: cl, V: keep, Val: nv()})
+					case 4:
+						sub = append(sub, drv.Op{Op: pick(r, []string{"info", "infos", "getlog"}), C: cl, V: pick(r, []int{0, keep})})
+					default:
+						sub = append(sub, drv.Op{Op: "put", C: cl, V: keep, I: "kv", K: "k1", Val: nv()})
+					}
+					continue
+				}
+				switch {
 				case x < 4:
 					sub = append(sub, drv.Op{Op: "newver", C: cl, V: p, N: int64(next)})
 					next++
@@ -124,9 +149,11 @@ func (C11) Generate(r *rand.Rand, tier string, idx int) *drv.Scenario {
 			}
 			steps = append(steps, drv.Op{Op: "par", Sub: sub})
 			// commit everything that got created so that later batches have parents
-			steps = append(steps, drv.Op{Op: "commitall"})
+			steps = append(steps, drv.Op{Op: "commitall", M: int64(keep)})
 			for i := 1; i < next; i++ {
-				locked = append(locked, i)
+				if i != keep {
+					locked = append(locked, i)
+				}
 			}
 			open = nil
 		}
@@ -138,7 +165,7 @@ func (C11) Generate(r *rand.Rand, tier string, idx int) *drv.Scenario {
 			break
 		}
 	}
-	return sc
+	return lockSwarm(sc, idx)
 }
 
 type kvIn struct {
@@ -217,6 +244,9 @@ func (c C11) Execute(sc *drv.Scenario, w *drv.World) (*drv.Violation, error) {
 		return nil, nil
 	}
 	x := NewKVExec(w)
+	isDag := sc.Family == "dag" || sc.Family == "dag-locks"
+	lastNote := map[int]string{} // (lock family) version index -> note it must hold
+	logLines := map[int][]string{}
 	var hist []porcupine.Operation
 	var histDesc []string
 	inited := map[string]bool{}
@@ -281,7 +311,16 @@ func (c C11) Execute(sc *drv.Scenario, w *drv.World) (*drv.Violation, error) {
 					}
 				}
 			}
-			if sc.Family == "dag" {
+			if sc.Family == "dag-locks" {
+				if v, err := c.checkNodeMeta(x, ops, res.Resps, lastNote, logLines); v != nil || err != nil {
+					if v != nil {
+						v.Step = i
+						v.Detail = "batch:\n" + descReqs(reqs) + "\n" + v.Detail
+					}
+					return v, err
+				}
+			}
+			if isDag {
 				if v, err := c.checkDAG(x, ops, res.Resps); v != nil || err != nil {
 					if v != nil {
 						v.Step = i
@@ -308,7 +347,7 @@ func (c C11) Execute(sc *drv.Scenario, w *drv.World) (*drv.Violation, error) {
 		case "commitall":
 			for _, vi := range x.D.Sorted() {
 				n := x.D.Nodes[vi]
-				if !n.Locked {
+				if !n.Locked && !(op.M > 0 && int64(vi) == op.M) {
 					st, _, err := w.HTTP("POST", "/api/node/"+n.UUID+"/commit", []byte(`{}`))
 					if err != nil {
 						return nil, err
@@ -410,6 +449,22 @@ func (C11) toReq(x *KVExec, s drv.Op) (proto.Req, bool) {
 			return rq, false
 		}
 		rq.Method, rq.URL, rq.Body = "POST", "/api/node/"+x.uuid(s.V)+"/commit", []byte(`{}`)
+	case "note", "log", "info", "getlog":
+		if !x.D.Has(s.V) {
+			return rq, false
+		}
+		switch s.Op {
+		case "note":
+			rq.Method, rq.URL, rq.Body = "POST", "/api/node/"+x.uuid(s.V)+"/note", jsonBody(map[string]interface{}{"note": "<" + s.Val + ">"})
+		case "log":
+			rq.Method, rq.URL, rq.Body = "POST", "/api/node/"+x.uuid(s.V)+"/log", jsonBody(map[string]interface{}{"log": []string{"<" + s.Val + ">"}})
+		case "info":
+			rq.Method, rq.URL = "GET", "/api/repo/"+x.uuid(s.V)+"/info"
+		case "getlog":
+			rq.Method, rq.URL = "GET", "/api/node/"+x.uuid(s.V)+"/log"
+		}
+	case "infos":
+		rq.Method, rq.URL = "GET", "/api/repos/info"
 	case "merge":
 		var ps []string
 		for _, p := range s.Ps {
@@ -424,6 +479,79 @@ func (C11) toReq(x *KVExec, s drv.Op) (proto.Req, bool) {
 		return rq, false
 	}
 	return rq, true
+}
+
+// checkNodeMeta: every acknowledged note/log post of a concurrent batch took effect - the note is one of the
+// notes acknowledged in the batch (or the earlier one if none was), the log holds every acknowledged line.
+func (C11) checkNodeMeta(x *KVExec, ops []drv.Op, resps []proto.Resp, lastNote map[int]string, logLines map[int][]string) (*drv.Violation, error) {
+	notes := map[int][]string{}
+	touched := map[int]bool{}
+	for j, s := range ops {
+		if resps[j].Status != 200 {
+			continue
+		}
+		switch s.Op {
+		case "note":
+			notes[s.V] = append(notes[s.V], "<"+s.Val+">")
+			touched[s.V] = true
+		case "log":
+			logLines[s.V] = append(logLines[s.V], "<"+s.Val+">")
+			touched[s.V] = true
+		}
+	}
+	var vs []int
+	for v := range touched {
+		vs = append(vs, v)
+	}
+	sort.Ints(vs)
+	for _, v := range vs {
+		st, b, err := x.W.HTTP("GET", "/api/node/"+x.uuid(v)+"/note", nil)
+		if err != nil {
+			return nil, err
+		}
+		var got struct{ Note string }
+		if st != 200 || json.Unmarshal(b, &got) != nil {
+			return &drv.Violation{Prop: "C11", Oracle: "acked-node-meta", Sig: "node note unreadable after concurrent batch", Detail: fmt.Sprintf("%d %s", st, trunc(b))}, nil
+		}
+		want := notes[v]
+		if _, known := lastNote[v]; len(want) == 0 && !known {
+			lastNote[v] = got.Note // the note the version was created with
+		}
+		if len(want) == 0 {
+			want = []string{lastNote[v]}
+		}
+		ok := false
+		for _, n := range want {
+			if n == got.Note {
+				ok = true
+			}
+		}
+		if !ok {
+			return &drv.Violation{Prop: "C11", Oracle: "acked-node-meta", Sig: "node note is none of the acknowledged notes", Detail: fmt.Sprintf("note of %s reads %q; acknowledged candidates %q", x.uuid(v), got.Note, want)}, nil
+		}
+		lastNote[v] = got.Note
+		st, b, err = x.W.HTTP("GET", "/api/node/"+x.uuid(v)+"/log", nil)
+		if err != nil {
+			return nil, err
+		}
+		var gl struct{ Log []string }
+		if st != 200 || json.Unmarshal(b, &gl) != nil {
+			return &drv.Violation{Prop: "C11", Oracle: "acked-node-meta", Sig: "node log unreadable after concurrent batch", Detail: fmt.Sprintf("%d %s", st, trunc(b))}, nil
+		}
+		for _, line := range logLines[v] {
+			n := 0
+			for _, g := range gl.Log {
+				if strings.Contains(g, line) {
+					n++
+				}
+			}
+			if n != 1 {
+				return &drv.Violation{Prop: "C11", Oracle: "acked-node-meta", Sig: "acknowledged node log line lost or duplicated", Detail: fmt.Sprintf("log of %s holds line %q %d times: %q", x.uuid(v), line, n, gl.Log)}, nil
+			}
+		}
+		x.W.Stats.Probe("node-meta-after-concurrency-checked")
+	}
+	return nil, nil
 }
 
 // checkDAG: after a concurrent batch of version-graph requests the graph must be
